@@ -35,9 +35,10 @@ const (
 	KYield
 	KGate
 	KChanLen
+	KPost
 )
 
-var kindNames = [...]string{"start", "spawn", "send", "recv", "select", "close", "atomic", "pool", "syncmap", "mutex", "fs", "time", "yield", "gate", "chanlen"}
+var kindNames = [...]string{"start", "spawn", "send", "recv", "select", "close", "atomic", "pool", "syncmap", "mutex", "fs", "time", "yield", "gate", "chanlen", "post-publish"}
 
 func (k Kind) String() string { return kindNames[k] }
 
@@ -109,13 +110,14 @@ type Exec struct {
 	preempt int
 
 	// virtual environment
-	Now       time.Time
-	TickStep  time.Duration
-	TickLands []time.Duration // where in the next interval a tick lands (offsets from the boundary)
-	FS        *FS
-	Stderr    []byte
-	Trace     []string
-	tracing   bool
+	Now         time.Time
+	TickStep    time.Duration
+	TickLands   []time.Duration // where in the next interval a tick lands (offsets from the boundary)
+	FS          *FS
+	Stderr      []byte
+	Trace       []string
+	tracing     bool
+	postPublish bool
 	// per-execution registry of lazily initialised shim state
 	resetters []func()
 }
@@ -222,6 +224,17 @@ func Point(k Kind, enabled func() bool) {
 	t.kind = k
 	x.reschedule(t)
 	t.enabled = nil
+}
+
+// PostPoint is an extra scheduling point AFTER a publishing operation has taken effect (atomic store /
+// swap / successful CAS, sync.Map store): only in executions run with RunOpts.PostPublish. Hooked
+// operations yield BEFORE they take effect, so an operation and the unhooked code that follows it are one
+// atomic step; for race-free code that loses nothing, but "publish, then initialise what was published"
+// is invisible. With this point another thread can run between the publication and what follows it.
+func PostPoint() {
+	if x := cur; x != nil && x.postPublish && x.atomic == 0 && !x.killed {
+		Point(KPost, nil)
+	}
 }
 
 // Yield is a plain scheduling point (used by harness sinks to model a slow consumer).
@@ -382,6 +395,8 @@ type RunOpts struct {
 	// TickLands: the offsets from the next interval boundary at which a clock tick may land; each is a
 	// separate alternative of the tick seam. Default: just after the boundary (1ms).
 	TickLands []time.Duration
+	// PostPublish adds a scheduling point after every publishing atomic / sync.Map operation (see PostPoint).
+	PostPublish bool
 }
 
 // Run executes body once, replaying prefix and taking choice 0 afterwards.
@@ -389,7 +404,7 @@ func Run(body func(), prefix []int, o RunOpts) *Exec {
 	if cur != nil {
 		fatalf("nested Run")
 	}
-	x := &Exec{prefix: prefix, bounds: o.Bounds, ctl: make(chan struct{}, 1), tracing: o.Trace}
+	x := &Exec{prefix: prefix, bounds: o.Bounds, ctl: make(chan struct{}, 1), tracing: o.Trace, postPublish: o.PostPublish}
 	if x.bounds.Horizon == 0 {
 		x.bounds.Horizon = 20000
 	}
